@@ -122,15 +122,15 @@ def run(ck, facts, tier, only=None):
         n = Poly.atom(("len", parts.key(), None))
         part = lambda i: Poly.atom(("call", "index", (vkey(parts), Poly.const(i).key())))
         mk = lambda settle: Sym("ctor", "Ok", Rec(NC, {"name": lower, "union_cal": Rec(UC, {"calendars": Sym("parse_cals", vkey(part(0))), "settlement_calendars": settle})}))
-        gt2 = (vkey(cel.cmp_sym("Gt", n, Poly.const(2), True)), True)
-        eq1 = (vkey(cel.cmp_sym("Eq", n, Poly.const(1))), True)
+        gt2 = paths.lit(cel.cmp_sym("Gt", n, Poly.const(2), True))
+        eq1 = paths.lit(cel.cmp_sym("Eq", n, Poly.const(1)))
         ps = paths.flatten(got)
         by = {}
         for c, v in ps:
             dc = dict(c)
-            if dc.get(gt2[0]) is True:
+            if dc.get(gt2[0]) is gt2[1]:
                 by["gt2"] = v
-            elif dc.get(eq1[0]) is True:
+            elif dc.get(eq1[0]) is eq1[1]:
                 by["one"] = v
             else:
                 by["two"] = v
